@@ -50,6 +50,11 @@ def r2(ctx, prog):
                         starts=[cfg.after(t) for t in take] if take else None)
         ctx.check(R, w is None, f.where(frees[0]), "the next link is read before _mi_free_delayed_block(block)", key="C08.R2:next_first", witness=w)
         bd = rl.var_of(f, rl.arg(f, frees[0], 0))
+        # the walk is complete: once the list was taken, the function is left only with the cursor at NULL (no budget, no early
+        # exit that hands "the rest" back — a single re-insert keeps one block and drops everything linked behind it)
+        if take and bd is not None:
+            wz = cfg.guarded(cfg.exit, lambda e, pol: isinstance(e, int) and rl.fact_null(f, e, pol, lambda j: f.nodes[j]["k"] == "DeclRefExpr" and f.nodes[j]["d"] == bd), starts=[cfg.after(take[0])])
+            ctx.check(R, wz is None, f.where(), "after the take-over every path to the return has walked the list to its end (block == NULL)", key="C08.R2:complete", witness=wz)
         # advance uses the saved link
         adv = [a for a, rhs, op in f.var_defs(bd) if op == "=" and rhs is not None and rl.var_of(f, rhs) == nexts[0]["d"]]
         ctx.check(R, len(adv) == 1, f.where(), "the walk advances through the saved link", key="C08.R2:advance")
